@@ -43,7 +43,9 @@ class Thread(threading.Thread):
 
     def __init__(self, *args, **kwargs):
         super().__init__(*args, **kwargs)
-        self._future_: concurrent.futures.Future = None
+        self._future_: concurrent.futures.Future = concurrent.futures.Future()
+        # Created here rather than in `run`: `wait` and `as_completed` may be
+        # called right after `start`, before the new thread has got to run any code.
 
     @staticmethod
     def handle_exception(exc):
@@ -56,7 +58,6 @@ class Thread(threading.Thread):
         """
         This method represents the thread's activity.
         """
-        self._future_ = concurrent.futures.Future()
         try:
             if self._target is not None:
                 z = self._target(*self._args, **self._kwargs)
